@@ -64,7 +64,11 @@ def oracle(case):
     if case.get("names") == "steering" and c >= 2:
         # curves named like the items that steer parsing: only ~Version/~Well items may steer
         names = ["DEPT"] + [("NULL", "WRAP", "DLM", "VERS")[j - 1] if j <= 4 else "C%d" % j for j in range(1, c)]
-    desc = {"curves": [[names[j], "", "", "", col] for j, col in enumerate(cols)]}
+    units = [""] * c
+    if case.get("units") == "dotted":
+        # units that begin with a period (.1IN) next to mnemonics of different lengths: TDEP ..1IN must not come back as TDEP.
+        units = [".1IN" if j % 2 == 0 else "ohm.m" for j in range(c)]
+    desc = {"curves": [[names[j], units[j], "", "", col] for j, col in enumerate(cols)]}
     if case.get("null"):
         desc["null"] = case["null"]  # any NULL marker must carry the NaNs through the file
     las = build.build_las(desc)
@@ -95,7 +99,7 @@ def oracle(case):
         out.fail("write-raises|" + text.bucket, "%s\nopts=%r" % (text, case["opts"]))
         return out
     lines = text.split("\n")
-    a0 = max(i for i, ln in enumerate(lines) if ln.startswith("~A"))
+    a0 = max(i for i, ln in enumerate(lines) if ln[:2].upper() == "~A")
     nphys = len([ln for ln in lines[a0 + 1:] if ln.strip()])
     if wrap and nphys > r:
         feats.append("multi-line-steps")
@@ -291,7 +295,7 @@ def cases(draw, max_rows=6):
         data_width = max(longest, 1)
     opts = dict(version=version, wrap=wrap, fmt=fmt, len_numeric_field=lnf, spacer=spacer, lhs_spacer=lhs,
                 data_width=data_width, mnemonics_header=draw(st.booleans()),
-                data_section_header=draw(st.sampled_from(["~ASCII", "~A", "~A log data"])))
+                data_section_header=draw(st.sampled_from(["~ASCII", "~A", "~A log data", "~a", "~ascii log data", "~Ascii"])))
     col_fmt = {k_: v for k_, v in col_fmt.items() if int(k_) < c}
     if col_fmt:
         opts["column_fmt"] = col_fmt
@@ -303,6 +307,8 @@ def cases(draw, max_rows=6):
         case["names"] = "steering"
     if draw(st.integers(0, 5)) == 0:
         case["dlm"] = draw(st.sampled_from(["COMMA", "TAB"]))
+    if draw(st.integers(0, 5)) == 0:
+        case["units"] = "dotted"
     if nullspec is not None:
         case["null"] = nullspec
     if col_fmt and draw(st.booleans()):
